@@ -108,7 +108,7 @@ theorem simpleCmd_unfold (n : Nat) (tokens : List String) (cwd : String) (rem : 
             if base == "command" && (tokens.getD 1 "" == "-v" || tokens.getD 1 "" == "-V") then
               ⟨.allow, "command -v"⟩
             else
-              match skipWrapperArgs (tokens.drop 1) with
+              match skipWrapperArgs (w.wrapperArgFlags (tokens.headD "")) (tokens.drop 1) with
               | [] => ⟨.ask, base⟩
               | inner => simpleCmd w rec h n inner cwd rem
           else builtinVerdict w rec h.helpWords h.helpFlags2 h.helpFlagsLast tokens cwd rem := by
@@ -177,7 +177,7 @@ theorem rule_through_env_prefix (ws : List Word) (cwd : String) (rem : Bool) (m 
 theorem wrapper_transparent (n : Nat) (W : String) (rest inner : List String) (cwd : String) (rem : Bool)
     (hwr : w.wrapper W = true) (hr : rest.isEmpty = false)
     (hcv : (W == "command" && (rest.headD "" == "-v" || rest.headD "" == "-V")) = false)
-    (hskip : skipWrapperArgs rest = inner) (hi : inner.isEmpty = false)
+    (hskip : skipWrapperArgs (w.wrapperArgFlags W) rest = inner) (hi : inner.isEmpty = false)
     (hm : w.matchCommand (W :: rest) cwd rem = none) :
     simpleCmd w rec h (n + 1 + 1) (W :: rest) cwd rem = simpleCmd w rec h (n + 1) inner cwd rem := by
   rw [simpleCmd_unfold _ _ _ _ _ _ _ (by rfl), hm]
@@ -197,7 +197,7 @@ theorem rule_through_wrapper (n : Nat) (W : String) (rest inner : List String) (
     (m : Match)
     (hwr : w.wrapper W = true) (hr : rest.isEmpty = false)
     (hcv : (W == "command" && (rest.headD "" == "-v" || rest.headD "" == "-V")) = false)
-    (hskip : skipWrapperArgs rest = inner) (hi : inner.isEmpty = false)
+    (hskip : skipWrapperArgs (w.wrapperArgFlags W) rest = inner) (hi : inner.isEmpty = false)
     (hm : w.matchCommand (W :: rest) cwd rem = none)
     (hmi : w.matchCommand inner cwd rem = some m) :
     (simpleCmd w rec h (n + 1 + 1) (W :: rest) cwd rem).action = m.decision := by
